@@ -268,6 +268,31 @@ pub fn gen_zone_records(rng: &mut Rng, apex: &RName, class: u16, opts: &ZoneOpts
             rd.extend(std::iter::repeat(b'a' + i as u8).take(200));
             push(&mut recs, rng, owner.clone(), T_TXT, rd);
         }
+        if class == C_IN && rng.chance(1, 3) {
+            // an MX RRset of 17-40 exchanges whose address RRsets differ in size (0-14 records), with
+            // exchange names nested in one another: over UDP, optional address RRsets stop fitting
+            // somewhere in the middle of additional-section processing and later ones fit again
+            let fan = apex.child(b"fan");
+            let n = rng.range(17, 40);
+            let mut prev: Option<RName> = None;
+            for i in 0..n {
+                let target = match (&prev, rng.below(3)) {
+                    (Some(p), 0) => p.child(*rng.pick(&LABELS)),
+                    _ => apex.child(format!("big{}", i).as_bytes()),
+                };
+                if !fan.is_valid() || !target.is_valid() {
+                    continue;
+                }
+                let mut rd = vec![0, i as u8];
+                rd.extend(target.wire());
+                recs.push(RRec { owner: fan.clone(), rtype: T_MX, class, ttl: 300, rdata: rd });
+                let n_addr = *rng.pick(&[0usize, 0, 1, 1, 2, 8, 14]);
+                for k in 0..n_addr {
+                    recs.push(RRec { owner: target.clone(), rtype: T_A, class, ttl: 300, rdata: vec![10, 9, i as u8, k as u8] });
+                }
+                prev = Some(target);
+            }
+        }
         if class == C_IN && rng.chance(1, 12) {
             // one RRset whose response is larger than 16 KiB (TCP only): exchange names whose
             // suffix labels first appear beyond offset 16383, where a 14-bit compression
@@ -413,6 +438,33 @@ pub fn interesting_names(rng: &mut Rng, cat: &RefCatalog) -> Vec<RName> {
                 if let Some((_, names, _)) = rr::split_names(rec.class, rec.rtype, &rec.rdata) {
                     out.extend(names);
                 }
+            }
+        }
+    }
+    // wire-confusable names: one label whose octets spell the wire form of a catalog entry's
+    // name (so an octet-wise suffix comparison of wire forms sees an entry where there is none)
+    for e in &cat.entries {
+        if e.name.0.is_empty() {
+            continue;
+        }
+        let mut label: Vec<u8> = vec![b'x'];
+        for l in &e.name.0 {
+            label.push(l.len() as u8);
+            label.extend_from_slice(l);
+        }
+        if label.len() <= 63 {
+            let alone = RName(vec![label.clone()]);
+            if alone.is_valid() {
+                out.push(alone);
+            }
+            // only the first label spelled inside, the rest real: x\008quandary.test.
+            let mut first: Vec<u8> = vec![b'x', e.name.0[0].len() as u8];
+            first.extend_from_slice(&e.name.0[0]);
+            let mut v = vec![first];
+            v.extend(e.name.0[1..].iter().cloned());
+            let partly = RName(v);
+            if partly.is_valid() {
+                out.push(partly);
             }
         }
     }
